@@ -21,7 +21,7 @@ def truthy (o : Option String) : Option String :=
 
 /-! ### `float(x)` and `repr` of the result, without floats
 
-  ints print as `n.0` (|n| < 10^16), bools as `1.0` / `0.0`, a float is given by its `repr` already, a str is
+  ints print as `n.0` (|n| < 10^16; from 2^1024 on `float()` raises OverflowError), bools as `1.0` / `0.0`, a float is given by its `repr` already, a str is
   parsed as `[ws][sign] digits[.digits] | .digits [ws]` (underscores between digits allowed) and printed
   normalised — exact for decimals of at most 15 significant digits in [1e-4, 1e16) and for zero, which is what the
   generators produce.  Exponents, `inf`, `nan` are outside the modelled alphabet. -/
@@ -81,7 +81,7 @@ def intFloat (n : Int) : String := toString n ++ ".0"
 def floatRepr (o : Outcome) : Option String :=
   if o.failed || o.isExc then none else
   match o.val with
-  | .int n => some (intFloat n)
+  | .int n => if n.natAbs ≥ 2 ^ 1024 then none else some (intFloat n)      -- OverflowError: int too large
   | .bool b => some (if b then "1.0" else "0.0")
   | .float r => some r
   | .str s => parseFloatText s
